@@ -290,6 +290,67 @@ def check_cat(bufs_text, flat_text):
 # ------------------------------------------------------------------ tie
 
 
+def run_interleaved(ds, ops):
+    """several iterators over ONE dataset object, advanced in the given interleaving (`mk`: iter(ds);
+    `n<j>`: next(it_j); `f<n>`: fastforward_epochs(n)).  Returns (recorded permutations in the order
+    they were drawn, per iterator [batches as text, ran into StopIteration])."""
+    log, its = [], []
+    with recorded_randperm(log):
+        for op in ops:
+            if op == "mk":
+                its.append({"it": iter(ds), "got": [], "stopped": False})
+            elif op[0] == "f":
+                ds.fastforward_epochs(int(op[1:]))
+            else:
+                it = its[int(op[1:])]
+                try:
+                    b = next(it["it"])
+                    it["got"].append(batches_str([b.data]).split(" ", 1)[1])
+                except StopIteration:
+                    it["stopped"] = True
+    return log, [(x["got"], x["stopped"]) for x in its]
+
+
+def gen_interleaving(rng):
+    ops, n = [], 0
+    for _ in range(rng.randrange(5, 16)):
+        r = rng.random()
+        if n == 0 or (r < 0.18 and n < 4):
+            ops.append("mk")
+            n += 1
+        elif r < 0.28:
+            ops.append("f%d" % rng.choice([1, 1, 2]))
+        else:
+            ops.append("n%d" % rng.randrange(n))
+    # usually let one iterator run to its end
+    if rng.random() < 0.7:
+        ops += ["n%d" % rng.randrange(n)] * rng.choice([3, 8, 30])
+    return ops
+
+
+def interleaved_line(c, ftable, ops):
+    """the driver line that evaluates C20_interleaved on what the real iterators returned"""
+    log, its = run_interleaved(make_dataset(c), ops)
+    started = [(got, st) for got, st in its if got or st]
+    line = "dataset check-session %d %s %d %s %s %d %s" % (
+        c["b"],
+        "none" if c["batches"] is None else str(c["batches"]),
+        len(log),
+        " ".join(perm_str(pl) for _, pl in log),
+        ftable,
+        len(started),
+        " ".join("%d %d%s" % (1 if st else 0, len(got), "".join(" " + g for g in got)) for got, st in started),
+    )
+    return " ".join(line.split()), its
+
+
+def check_interleaved(c, ftable, ops):
+    """[] or ["interleaved-iterators"]"""
+    line, its = interleaved_line(c, ftable, ops)
+    out = driver.run_lines([line])[0]
+    return ([] if out == "ok" else ["interleaved-iterators"]), out, its
+
+
 def tie(ctx):
     import torch
 
@@ -299,7 +360,7 @@ def tie(ctx):
     divs = []
     tmp = tempfile.mkdtemp(prefix="c20-")
     try:
-        lines, impl, meta = [], [], []
+        lines, impl, meta, inter = [], [], [], []
         for serial in range(n_file):
             c = gen_file_case(ctx, tmp, serial)
             ftable = table_str(c["data"])
@@ -370,6 +431,20 @@ def tie(ctx):
             ctx.count("file:fastforward-%d" % nff)
             if ff != base[nff:]:
                 divs.append(Divergence("impl.fastforward", dict(desc, check="fastforward", n=nff), ff, base[nff:]))
+            # several live iterators over one dataset object, interleaved with each other and with
+            # fast-forwards: each owns one epoch of the sequential stream (C20_interleaved)
+            if c["b"] >= 1:
+                ops = gen_interleaving(ctx.rng)
+                idesc = dict(desc, check="interleaved-iterators", ops=ops)
+                try:
+                    iline, its = interleaved_line(c, ftable, ops)
+                    inter.append((idesc, iline, its))
+                except Exception as e:
+                    divs.append(Divergence("impl.interleaved", idesc, "crash " + type(e).__name__, "every iterator yields one epoch of the sequential stream"))
+                ctx.evaluated()
+                ctx.count("file:interleaved-iterators")
+                if sum(1 for o in ops if o == "mk") >= 2:
+                    ctx.count("file:interleaved-2+-iterators")
             m = ctx.rng.choice([0, 1, 2])
             d3 = make_dataset(c)
             for _ in range(m):
@@ -384,6 +459,9 @@ def tie(ctx):
         for desc, io, mo in zip(meta, impl, model):
             if io != mo:
                 divs.append(Divergence("corr.dataset", desc, io, mo))
+        for (idesc, _l, its), out in zip(inter, driver.run_lines([l for _d, l, _i in inter])):
+            if out != "ok":
+                divs.append(Divergence("impl.interleaved", idesc, "%s: iterators returned %s" % (out, str(its)[:300]), "every iterator yields one epoch of the sequential stream"))
         if meta:
             ctx.sample({k: meta[0][k] for k in ("fields", "b", "batches", "seed", "perms")})
 
@@ -465,7 +543,7 @@ def tie(ctx):
 
 
 MUTATED = "batch-mutated-by-later-batch"
-DIRECT = {"impl.determinism": "nondeterministic", "impl.fastforward": "fastforward", "impl.pickle": "pickle-restart", "impl.retained": MUTATED}
+DIRECT = {"impl.determinism": "nondeterministic", "impl.fastforward": "fastforward", "impl.pickle": "pickle-restart", "impl.retained": MUTATED, "impl.interleaved": "interleaved-iterators"}
 
 
 def explain(d):
@@ -584,6 +662,8 @@ def replay(ctx, data):
                 if stream_text(d3, 2) != base[:2]:
                     keys.append("pickle-restart")
                     break
+            if r.get("ops"):
+                keys += check_interleaved(c, ftable, r["ops"])[0]
             for k in dict.fromkeys(keys):
                 vs.append(Violation(k, "file dataset %s: clause %s of C20 fails" % ({x: str(r[x])[:120] for x in ("table", "b", "batches", "seed")}, k), r))
         finally:
